@@ -82,7 +82,7 @@ def run(ctx):
     broken = []
     witness = None
 
-    ok, failures = ctx.proof_gate(["Poulpy.Props.C14"])
+    ok, failures = ctx.proof_gate(["Poulpy.Props.C14", "Poulpy.Props.C14Exec"])
     broken += failures
     binp = ctx.build_harness()
     drv = ctx.driver()
